@@ -344,7 +344,15 @@ class Interp:
         if name in self.intr:
             return self.intr[name]
         if name in self.g:
-            return self.g[name]
+            v = self.g[name]
+            if isinstance(v, (list, dict, bytearray)) and not isinstance(v, (SList, SDict)):
+                # a mutable module-level object lives as long as the process: one copy of its import-time value per symbolic
+                # path (= a fresh process; state carried between conversions is the history obligations' subject)
+                key = ("global", id(self.g), name)
+                if key not in self.path.state:
+                    self.path.state[key] = SDict(list(v.items())) if isinstance(v, dict) else SList(list(v))
+                return self.path.state[key]
+            return v
         if hasattr(builtins, name):
             return getattr(builtins, name)
         raise NameError(name)
